@@ -237,6 +237,110 @@ theorem C13_redial_window (cfg : TickCfg) (G : Nat) (ts : List Nat) (t0 : Nat) (
 example : ticksOk 6 10 [15, 21, 26] ∧ ∃ t ∈ [15, 21, 26], 20 < t := by
   refine ⟨by simp [ticksOk], 21, by simp, by omega⟩
 
+/-! ### histories of checks -/
+
+/-- what one connectivity check sees -/
+structure TickIn where
+  now : Nat
+  known : List KnownPeer
+  connected : List Nat
+  pendingConns : Nat
+  done : List (Nat × Bool)
+
+/-- the dialer over a whole history of checks; returns the final state and the dials of every check -/
+def runTicks (cfg : TickCfg) : TickState → List TickIn → TickState × List (List (Nat × Nat))
+  | st, [] => (st, [])
+  | st, i :: rest =>
+    let r := tick cfg i.now i.known i.connected i.pendingConns i.done st
+    let r2 := runTicks cfg r.1 rest
+    (r2.1, r.2 :: r2.2)
+
+theorem drain_pending_sub (cfg : TickCfg) (now : Nat) (done : List (Nat × Bool)) (st : TickState) :
+    ∀ p ∈ (drain cfg now st done).pending, p ∈ st.pending := by
+  induction done generalizing st with
+  | nil => intro p hp; exact hp
+  | cons e t ih =>
+    obtain ⟨q, ok⟩ := e
+    intro p hp
+    simp only [drain] at hp
+    split at hp
+    · have := ih _ p hp
+      exact (List.mem_filter.mp this).1
+    · exact ih _ p hp
+
+theorem drain_pending_nodup (cfg : TickCfg) (now : Nat) (done : List (Nat × Bool)) (st : TickState)
+    (h : st.pending.Nodup) : (drain cfg now st done).pending.Nodup := by
+  induction done generalizing st with
+  | nil => exact h
+  | cons e t ih =>
+    obtain ⟨q, ok⟩ := e
+    simp only [drain]
+    split
+    · exact ih _ (h.filter _)
+    · exact ih _ h
+
+/-- one check keeps "at most one background dial in flight per peer" -/
+theorem tick_pending_nodup (cfg : TickCfg) (i : TickIn) (st : TickState) (h : st.pending.Nodup)
+    (hk : (i.known.map (·.id)).Nodup) :
+    (tick cfg i.now i.known i.connected i.pendingConns i.done st).1.pending.Nodup := by
+  simp only [tick]
+  have h1 := drain_pending_nodup cfg i.now i.done st h
+  rw [List.nodup_append]
+  refine ⟨h1, ?_, ?_⟩
+  · -- chosen ids: a sublist of the known ids
+    have hsub : ((List.filter (eligible cfg i.now i.connected (drain cfg i.now st i.done)) i.known).take
+        (min (List.filter (eligible cfg i.now i.connected (drain cfg i.now st i.done)) i.known).length (cfg.cap - i.pendingConns))).Sublist i.known :=
+      (List.take_sublist _ _).trans List.filter_sublist
+    exact (hsub.map _).nodup hk
+  · intro a ha b hb hab
+    subst hab
+    obtain ⟨k, hkm, rfl⟩ := List.mem_map.mp hb
+    have hel := (List.mem_filter.mp (List.mem_of_mem_take hkm)).2
+    simp only [eligible, Bool.and_eq_true, Bool.not_eq_true', decide_eq_false_iff_not] at hel
+    exact hel.1.2 ha
+
+/-- **Over every history of connectivity checks** -- any tables, any reachability, any dial results in
+any order -- a peer never has two background dials in flight ("never dials peers already being
+dialed", lifted from one check to all of them). -/
+theorem C13_one_dial_per_peer (cfg : TickCfg) (ins : List TickIn) (st : TickState) (h : st.pending.Nodup)
+    (hk : ∀ i ∈ ins, (i.known.map (·.id)).Nodup) :
+    (runTicks cfg st ins).1.pending.Nodup := by
+  induction ins generalizing st with
+  | nil => exact h
+  | cons i rest ih =>
+    simp only [runTicks]
+    exact ih _ (tick_pending_nodup cfg i st h (hk i (by simp))) (fun j hj => hk j (by simp [hj]))
+
+theorem drain_keeps_pending (cfg : TickCfg) (now : Nat) (done : List (Nat × Bool)) (st : TickState) (p : Nat)
+    (hp : p ∈ st.pending) (hnot : ∀ e ∈ done, e.1 ≠ p) : p ∈ (drain cfg now st done).pending := by
+  induction done generalizing st with
+  | nil => exact hp
+  | cons e t ih =>
+    obtain ⟨q, ok⟩ := e
+    have hq : q ≠ p := hnot (q, ok) (by simp)
+    have ht : ∀ e ∈ t, e.1 ≠ p := fun e he => hnot e (by simp [he])
+    simp only [drain]
+    split
+    · exact ih _ (List.mem_filter.mpr ⟨hp, by simpa using fun e => hq e.symm⟩) ht
+    · exact ih st hp ht
+
+/-- ... and a check never dials a peer whose earlier dial has not been reported back yet -/
+theorem C13_no_redial_while_pending (cfg : TickCfg) (i : TickIn) (st : TickState) (p a : Nat)
+    (hp : p ∈ st.pending) (hnot : ∀ e ∈ i.done, e.1 ≠ p) :
+    (p, a) ∉ (tick cfg i.now i.known i.connected i.pendingConns i.done st).2 := by
+  intro hd
+  obtain ⟨k, _, _, _, _, _, _, hpend, _⟩ := C13_only_eligible cfg i.now i.known i.connected i.pendingConns i.done st p a hd
+  exact hpend (drain_keeps_pending cfg i.now i.done st p hp hnot)
+
+/-- the cap bounds the background dials in flight after a check: if the dials still in flight are among
+the connections being established (they are: a background dial is one), then after the check at most
+`max cap pendingConns` are -/
+theorem C13_pending_bounded (cfg : TickCfg) (i : TickIn) (st : TickState)
+    (h : (drain cfg i.now st i.done).pending.length ≤ i.pendingConns) :
+    (tick cfg i.now i.known i.connected i.pendingConns i.done st).1.pending.length ≤ max cfg.cap i.pendingConns := by
+  simp only [tick, List.length_append, List.length_map, List.length_take]
+  omega
+
 /-- **The tick model is the translation of the source.** The eligibility predicate of the model is the
 conjunction of exactly the clauses the translator read off `handle_connectivity_check` (High affinity,
 not self, has an address, not connected, no pending background dial, strictly past its backoff); the dial
